@@ -101,6 +101,16 @@ func c12Scenarios(tier string, withClose bool) []*h.Scenario {
 		add("overflow-vs-patch", &h.Scenario{Conf: gcConf(2), Prefix: openPrefix(2), Threads: [][]h.Step{{post}, {patch("s1")}}})
 		add("overflow-vs-put", &h.Scenario{Conf: gcConf(2), Prefix: openPrefix(2), Threads: [][]h.Step{{post}, {put("s1")}}})
 		add("overflow-vs-delete", &h.Scenario{Conf: gcConf(2), Prefix: openPrefix(2), Threads: [][]h.Step{{post}, {del("s1")}}})
+		// the same eviction with the grace period disabled (no age limit on the session cache)
+		noGrace := func(max int) *h.Conf {
+			return &h.Conf{Name: store, Store: store, Mod: func(c *config.Config) {
+				c.Storage.GC.Frequency = 15 * time.Minute
+				c.Storage.GC.GracePeriod = -1
+				c.Storage.GC.RepoUploadMax = max
+			}}
+		}
+		add("overflow-vs-patch-without-grace", &h.Scenario{Conf: noGrace(2), Prefix: openPrefix(2), Threads: [][]h.Step{{post}, {patch("s1")}}})
+		add("overflow-vs-put-without-grace", &h.Scenario{Conf: noGrace(2), Prefix: openPrefix(2), Threads: [][]h.Step{{post}, {put("s1")}}})
 		if tier == "thorough" {
 			add("overflow-vs-patch-vs-expiry", &h.Scenario{Conf: gcConf(2), Prefix: openPrefix(2), Due: 67 * time.Minute, Threads: [][]h.Step{{post}, {patch("s2")}}})
 			add("two-overflows", &h.Scenario{Conf: gcConf(2), Prefix: openPrefix(2), Threads: [][]h.Step{{post}, {post}, {patch("s1")}}})
